@@ -117,7 +117,7 @@ func ruleSIBRENDER(c *Ctx, r *Report) {
 		r.bad(rule, "wrap-set", c.pos(dr.RenderParam.Pos()), "the two renderers parenthesise non-simple operands for different operator sets: "+strings.Join(diff, ", ")+" — the parameterized SQL groups differently from the inline SQL")
 	}
 	// both use the same simplicity helper
-	if dr.IsSimple != nil && c.calls(dr.Render, dr.IsSimple) && c.calls(dr.RenderParam, dr.IsSimple) {
+	if dr.IsSimple != nil && c.callsTransitively(dr.Render, dr.IsSimple, 2, map[*ssa.Function]bool{}) && c.callsTransitively(dr.RenderParam, dr.IsSimple, 2, map[*ssa.Function]bool{}) {
 		r.ok(rule, "isSimple", c.pos(dr.IsSimple.Pos()), "shared helper")
 	} else {
 		r.bad(rule, "isSimple", c.pos(dr.RenderParam.Pos()), "the two renderers do not share the same simplicity test")
@@ -161,7 +161,7 @@ func ruleSIBSER(c *Ctx, r *Report) {
 	}
 	collect := func(fn *ssa.Function) map[string]*caseInfo {
 		out := map[string]*caseInfo{}
-		paths, _ := c.enumPaths(fn, 20000)
+		paths, _ := c.enumPathsInl(fn, 20000, c.serKeep()...)
 		n := fn.Signature.Results().Len()
 		for _, p := range paths {
 			if p.Ret == nil {
@@ -535,44 +535,8 @@ func ruleSIBLIKE(c *Ctx, r *Report) {
 	// len(x) >= N, x[k] == '/', x[len-1-k] == '/'
 	extract := func(fn *ssa.Function, wantTilde bool) []test {
 		var out []test
-		paths, _ := c.enumPaths(fn, 20000)
-		for _, p := range paths {
-			if p.Ret == nil {
-				continue
-			}
-			isRegexpPath := false
-			if wantTilde {
-				n := len(p.Ret.Results)
-				if !isNilConst(c.resolve(p.Ret.Results[n-1], p.Env)) {
-					continue
-				}
-				isRegexpPath = strings.Contains(skelString(c.skeleton(p.Ret.Results[0], p.Env)), " ~ ")
-			}
-			if !isRegexpPath {
-				continue
-			}
-			t := test{where: fnName(fn), pos: c.instrPos(p.Ret), minLen: -1, offset: -1}
-			var subj string
-			for _, a := range p.Atoms {
-				if a.Kind == "cmp" && a.Op == "==" && a.Val == "47" {
-					// subject is x[k] or x[(len(x) - k)]
-					base, idx, ok := splitIndexKey(a.Subj)
-					if !ok {
-						continue
-					}
-					subj = base
-					var k int64
-					if _, err := fmt.Sscan(idx, &k); err == nil {
-						t.offset = k
-					}
-				}
-			}
-			if subj != "" {
-				lo, _ := lenRange(p.Atoms, subj)
-				t.minLen = lo
-				t.ok = true
-			}
-			out = append(out, t)
+		for _, lt := range c.regexpTests(fn) {
+			out = append(out, test{where: fnName(fn), pos: lt.pos, minLen: lt.minLen, offset: lt.offset, ok: lt.ok})
 		}
 		return out
 	}
@@ -620,23 +584,22 @@ func ruleSIBLIKE(c *Ctx, r *Report) {
 			}
 		}
 	}
-	for _, b := range dr.RenderParam.Blocks {
-		for _, in := range b.Instrs {
-			st, ok := in.(*ssa.Store)
-			if !ok {
-				continue
-			}
-			if _, isIdx := st.Addr.(*ssa.IndexAddr); !isIdx {
-				continue
-			}
-			val := st.Val
-			if mi, ok := val.(*ssa.MakeInterface); ok {
-				val = mi.X
-			}
-			if _, desc, ok := c.rewriteOf(val, nil); ok {
-				paramChain = desc
-			} else if strings.Contains(c.key(val, nil), "Replace") {
-				paramChain = "non-canonical: " + c.key(val, nil)
+	{
+		paths, _ := c.enumPathsOpt(dr.RenderParam, 40000, c.inlBool(append(c.serKeep(), dr.LikeParam, dr.RangeParam)...))
+		for _, p := range paths {
+			for _, in := range p.Instrs {
+				st, ok := in.(*ssa.Store)
+				if !ok {
+					continue
+				}
+				if _, isIdx := st.Addr.(*ssa.IndexAddr); !isIdx {
+					continue
+				}
+				if _, desc, ok := c.rewriteOf(st.Val, p.Env); ok {
+					paramChain = desc
+				} else if strings.Contains(c.key(st.Val, p.Env), "Replace") {
+					paramChain = "non-canonical: " + c.key(st.Val, p.Env)
+				}
 			}
 		}
 	}
@@ -646,6 +609,9 @@ func ruleSIBLIKE(c *Ctx, r *Report) {
 		r.ok(rule, "rewrite-chain", c.pos(dr.RenderParam.Pos()), inlineChain)
 	} else {
 		r.bad(rule, "rewrite-chain", c.pos(dr.RenderParam.Pos()), fmt.Sprintf("the wildcard pattern is rewritten differently in the two modes: inline applies %s, parameterized applies %s — the parameter is not the inline constant", inlineChain, paramChain))
+	}
+	if rp.outside != "" {
+		r.bad(rule, "param|"+fnName(dr.RenderParam)+"|rewrite-outside-like", rp.outside, "RenderParam rewrites * → % / ? → _ in a parameter on a path where the node is not a LIKE comparison: the bound value differs from the constant the inline renderer writes")
 	}
 	if rp.ok {
 		key := "param|" + fnName(dr.RenderParam) + "|rewrite"
@@ -663,49 +629,122 @@ type likeTest struct {
 	minLen, offset int64
 	pos            string
 	ok             bool
+	outside        string // position of a wildcard rewrite of a parameter on a path that is not a Like node
 }
 
-// renderParamRegexpTest: the dominating condition of the ReplaceAll(*,%) in RenderParam is the
-// negation of (len ≥ N ∧ x[0]=='/' ∧ x[len-1]=='/'): the short-circuit chain's thresholds.
+// inlBool: inlining options that also read boolean predicates in place (their tests become atoms on the
+// caller's own values, so a test written in a helper and one written in place look the same).
+func (c *Ctx) inlBool(keep ...*ssa.Function) *InlineOpts {
+	o := &InlineOpts{Keep: map[*ssa.Function]bool{}, Bool: true}
+	for _, k := range keep {
+		if k != nil {
+			o.Keep[k] = true
+		}
+	}
+	return o
+}
+
+// slashTest reads the /…/ test off a conjunction of atoms: x[k] == '/' and x[len(x)-1-k] == '/' with a
+// lower bound on len(x).
+func slashTest(atoms []Atom) (t likeTest) {
+	t.minLen, t.offset = -1, -1
+	subj := ""
+	n := 0
+	for _, a := range atoms {
+		if a.Kind == "cmp" && a.Op == "==" && a.Val == "47" {
+			base, idx, ok := splitIndexKey(a.Subj)
+			if !ok {
+				continue
+			}
+			n++
+			subj = base
+			var k int64
+			if _, err := fmt.Sscan(idx, &k); err == nil {
+				t.offset = k
+			}
+		}
+	}
+	if subj != "" && n >= 2 && t.offset >= 0 {
+		lo, _ := lenRange(atoms, subj)
+		t.minLen = lo
+		t.ok = true
+	}
+	return t
+}
+
+// regexpTests: the /…/ test on every success path of a like function that renders the `~` operator.
+func (c *Ctx) regexpTests(fn *ssa.Function) []likeTest {
+	var out []likeTest
+	paths, _ := c.enumPathsOpt(fn, 20000, c.inlBool(c.serKeep()...))
+	for _, p := range paths {
+		if p.Ret == nil {
+			continue
+		}
+		n := len(p.Ret.Results)
+		if !isNilConst(c.resolve(p.Ret.Results[n-1], p.Env)) {
+			continue
+		}
+		if !strings.Contains(skelString(c.skeleton(p.Ret.Results[0], p.Env)), " ~ ") {
+			continue
+		}
+		t := slashTest(p.Atoms)
+		t.pos = c.instrPos(p.Ret)
+		out = append(out, t)
+	}
+	return out
+}
+
+// renderParamRegexpTest: on the paths of RenderParam for a Like node with one string parameter on which
+// the parameter is NOT rewritten (* → %, ? → _), the /…/ test that holds.
 func (c *Ctx) renderParamRegexpTest(fn *ssa.Function) likeTest {
 	var t likeTest
-	for _, b := range fn.Blocks {
-		for _, in := range b.Instrs {
-			call, ok := in.(*ssa.Call)
-			if !ok || calleeFullName(call) != "strings.ReplaceAll" {
-				continue
+	dr := c.driverRoles()
+	keep := append(c.serKeep(), dr.LikeParam, dr.RangeParam)
+	paths, _ := c.enumPathsOpt(fn, 40000, c.inlBool(keep...))
+	nRewritten := 0
+	for _, p := range paths {
+		if p.Ret == nil {
+			continue
+		}
+		isLike := false
+		for _, a := range p.Atoms {
+			if a.Kind == "cmp" && a.Op == "==" && a.Val == "expr.Like" && a.Subj == "$1.Op" {
+				isLike = true
 			}
-			if s, ok := constStringVal(call.Call.Args[1]); !ok || s != "*" {
-				continue
-			}
-			// predecessors of this block: the chain `len < N || x[0] != '/' || x[len-1] != '/'`
-			// the fall-through (no rewrite) edge is where all three are false
-			for _, p := range b.Preds {
-				for d := p; d != nil; d = d.Idom() {
-					iff, ok := d.Instrs[len(d.Instrs)-1].(*ssa.If)
-					if !ok {
-						continue
-					}
-					for _, a := range c.atoms(iff.Cond, true, nil) {
-						if a.Kind == "len" && (a.Op == "<" || a.Op == "<=") {
-							n := a.N
-							if a.Op == "<=" {
-								n++
-							}
-							t.minLen = n
-							t.ok = true
-							t.pos = c.instrPos(iff)
-						}
-						if a.Kind == "cmp" && a.Op == "!=" && a.Val == "47" && strings.HasSuffix(a.Subj, "[0]") {
-							t.offset = 0
-						}
-						if a.Kind == "cmp" && a.Op == "!=" && a.Val == "47" && strings.HasSuffix(a.Subj, "[1]") {
-							t.offset = 1
-						}
+		}
+		rewritten := false
+		var at ssa.Instruction
+		for _, in := range p.Instrs {
+			if st, ok := in.(*ssa.Store); ok {
+				if _, isIdx := st.Addr.(*ssa.IndexAddr); isIdx {
+					if _, _, ok := c.rewriteOf(st.Val, p.Env); ok {
+						rewritten = true
+						at = in
 					}
 				}
 			}
 		}
+		if rewritten {
+			nRewritten++
+			if !isLike && t.outside == "" {
+				t.outside = c.instrPos(at)
+			}
+			continue
+		}
+		if !isLike {
+			continue
+		}
+		lt := slashTest(p.Atoms)
+		if lt.ok {
+			lt.pos = c.instrPos(p.Ret)
+			if !t.ok || lt.minLen-2*lt.offset < t.minLen-2*t.offset {
+				lt.outside = t.outside
+				t = lt
+			}
+		}
+	}
+	if nRewritten == 0 {
+		t.ok = false
 	}
 	return t
 }
